@@ -561,4 +561,43 @@ def run(ctx, prog, res):
             r9.check("calendar" not in bad9, {"fn": "CompactCalendar::first_after", "evaluations": n9["calendar"]}, "C15.R9:calendar", "CompactCalendar::first_after: %s" % bad9.get("calendar", ""), lib.where_of(fc))
     r9.floor(2)
 
+    # R10 ------------------------------------------------------------------------------------
+    r10 = res.rule("C15.R10", "insert refuses nothing and reports `new` truthfully: the answer of CompactCalendar::insert and of CompactYear::insert is on every path the answer of the next level's insert for the unmodified month / day (no other constant, no test in between); CompactMonth::insert answers `false` only where `contains(day)` of the same month was true, and every other way out has set bit `day - 1`")
+    ci, yi, mi = (prog.fns.get("compact_calendar::Compact%s::insert" % n) for n in ("Calendar", "Year", "Month"))
+    if None in (ci, yi, mi):
+        r10.anchor_missing("CompactCalendar / CompactYear / CompactMonth ::insert")
+    else:
+        shc = flow.shape(ci, 0, depth=8)
+        okc = re.fullmatch(r"CompactYear::insert\(.*, ::month\(p2\), ::day\(p2\)\)", shc) is not None and not shc.startswith("alt(")
+        r10.check(okc, {"fn": "CompactCalendar::insert", "answers": "CompactYear::insert(year slot, date.month(), date.day())"}, "C15.R10:calendar",
+                  "CompactCalendar::insert does not answer, on every path, what CompactYear::insert answers for the month and day of the unmodified date: %s" % shc[:200], lib.where_of(ci))
+        shy = flow.shape(yi, 0, depth=8)
+        oky = re.fullmatch(r"CompactMonth::insert\(p1\.0\[\w+\], p3\)", shy) is not None
+        r10.check(oky, {"fn": "CompactYear::insert", "answers": "CompactMonth::insert(self.0[month - 1], day)"}, "C15.R10:year",
+                  "CompactYear::insert does not answer, on every path, what CompactMonth::insert answers for the unmodified day (a day refused here - e.g. by a table of month lengths that knows no 29 February - is silently missing from the calendar): %s" % shy[:200], lib.where_of(yi))
+        # month level: constant false only under contains == true; all other returns after the bit store
+        stores_ = [bb for bb, st_ in mi.stmts() if st_["k"] == "assign" and st_["dst"]["l"] == 1 and st_["dst"]["p"] and st_["rv"]["k"] == "bin" and st_["rv"]["op"] == "BitOr"]
+        falses = [bb for bb, st_ in mi.stmts() if st_["k"] == "assign" and st_["dst"]["l"] == 0 and not st_["dst"]["p"] and st_["rv"]["k"] == "use" and st_["rv"]["op"].get("k") == "const" and st_["rv"]["op"].get("bool") is False]
+        trues = [bb for bb, st_ in mi.stmts() if st_["k"] == "assign" and st_["dst"]["l"] == 0 and not st_["dst"]["p"] and st_["rv"]["k"] == "use" and st_["rv"]["op"].get("k") == "const" and st_["rv"]["op"].get("bool") is True]
+        guard = None
+        for sbb, blk in mi.live_blocks():
+            t_ = blk["term"]
+            if t_["k"] != "switch":
+                continue
+            pl_ = lib.operand_place(t_["op"])
+            if pl_ is None:
+                continue
+            for _, n_ in mi.defs_of(pl_["l"]):
+                if n_["k"] == "call" and flow.call_name(n_) == "compact_calendar::CompactMonth::contains" and flow.shape(mi, n_["args"][1], depth=3) == "p2":
+                    tg = dict((v, x) for v, x in t_["targets"])
+                    if 0 in tg:
+                        guard = (t_["otherwise"], tg[0])
+        okm = bool(stores_) and bool(falses) and bool(trues) and guard is not None \
+            and all(mi.dominates(guard[0], b) and not mi.dominates(guard[1], b) for b in falses) \
+            and all(any(mi.dominates(sb, b) for sb in stores_) for b in trues) \
+            and flow.shape(mi, 0, depth=3) in ("alt(0 | 1)", "alt(1 | 0)")
+        r10.check(okm, {"fn": "CompactMonth::insert", "false_only_if": "contains(day)", "true_only_after": "self.0 |= 1 << (day - 1)"}, "C15.R10:month",
+                  "CompactMonth::insert: `false` is not confined to the branch where contains(day) was true, or `true` is answered without the bit having been set", lib.where_of(mi))
+    r10.floor(3)
+
     witness.run_doctests(ctx, prog, res, "C15.W", "the representation cannot be built or read from outside the crate; twins compile", "c15", floor=4)
